@@ -135,7 +135,7 @@ def run(ctx):
             with rt.tempdir("c16_") as d:
                 root = os.path.join(d, "root")
                 os.makedirs(root)
-                sizes = {"empty.bin": 0, "one.bin": 1, "k.bin": 1000, "big.bin": 70000, "old69.bin": 69, "old68.bin": 68}
+                sizes = {"empty.bin": 0, "one.bin": 1, "k.bin": 1000, "big.bin": 70000, "old69.bin": 69, "old68.bin": 68, "epoch.bin": 70}
                 mt = {}
                 # file times: prefer instants in the second pass of a repeated hour and right after a gap
                 folds = [q for q in pts if datetime.datetime.fromtimestamp(q).fold]
@@ -148,6 +148,8 @@ def run(ctx):
                         ts = calendar.timegm((1969, 7, 1, 12, 0, 7))  # before the epoch: a negative time stamp
                     if n == "old68.bin":
                         ts = calendar.timegm((1968, 1, 15, 3, 30, 0))
+                    if n == "epoch.bin":
+                        ts = 0
                     os.utime(p, (ts, ts))
                     mt[n] = ts
                 # a file reached through a symbolic link is hashed through the link: its record carries the size and
